@@ -98,7 +98,8 @@ func (scb *SchemaClientBoundImpl) Retrieve(ctx context.Context, path *sdcpb.Path
 	})
 	entry.schemaRsp = schema
 	entry.err = err
-	entry.ready = true
+	// do not memoise failures, a failed retrieval (e.g. schema-server not reachable) is retried on the next call
+	entry.ready = err == nil
 
 	return entry.Get()
 }
